@@ -24,14 +24,18 @@ type Tape struct {
 	Over   bool // the tape overflowed MaxTape (run is discarded)
 }
 
-// NewTape returns a generating tape seeded with seed.
+// tapeBuf is reused between runs (one run at a time per process).
+var tapeBuf = make([]uint32, MaxTape)
+
+// NewTape returns a generating tape seeded with seed. It invalidates the
+// previous tape of this process.
 func NewTape(seed uint64) *Tape {
-	return &Tape{buf: make([]uint32, MaxTape), state: seed}
+	return &Tape{buf: tapeBuf, state: seed}
 }
 
 // NewReplayTape returns a tape replaying the given entries.
 func NewReplayTape(in []uint32) *Tape {
-	return &Tape{buf: make([]uint32, MaxTape), in: in, replay: true}
+	return &Tape{buf: tapeBuf, in: in, replay: true}
 }
 
 //go:norace
